@@ -21,7 +21,8 @@ def load_registry():
 
 def run_bounded(bid, tier='quick', repo='/repo', extra_args=None):
     t0 = time.time()
-    crate = (load_registry().get(bid) or {}).get('crate', 'harness')
+    reg = load_registry().get(bid) or {}
+    crate = reg.get('crate', 'harness')
     src = os.path.join(BDIR, crate)
     repo = os.path.realpath(repo)
     tag = hashlib.sha256(repo.encode()).hexdigest()[:8]
@@ -38,7 +39,14 @@ def run_bounded(bid, tier='quick', repo='/repo', extra_args=None):
                 os.unlink(link)
             else:
                 shutil.rmtree(link)
-        os.symlink(os.path.join(src, 'src'), link)
+        if reg.get('templated_src'):
+            # sources that name files of the tree under check (#[path = "@REPO@/.."]): copied with the path substituted
+            os.makedirs(link)
+            for fn in os.listdir(os.path.join(src, 'src')):
+                t_ = open(os.path.join(src, 'src', fn)).read().replace('@REPO@', repo)
+                open(os.path.join(link, fn), 'w').write(t_)
+        else:
+            os.symlink(os.path.join(src, 'src'), link)
         # versions of third-party crates: the repository's own lock file (everything is in the offline registry cache)
         lock = os.path.join(repo, 'Cargo.lock')
         if os.path.exists(lock) and not os.path.exists(os.path.join(work, 'Cargo.lock')):
@@ -112,7 +120,7 @@ def run_bounded(bid, tier='quick', repo='/repo', extra_args=None):
             shutil.rmtree(work, ignore_errors=True)
         return res
     try:
-        q = subprocess.run([binp, tier] + (extra_args or []), capture_output=True, text=True, timeout=3000, env=dict(os.environ, VX_CLI=clip))
+        q = subprocess.run([binp] + list(reg.get('args_prefix', [])) + [tier] + (extra_args or []), capture_output=True, text=True, timeout=3000, env=dict(os.environ, VX_CLI=clip))
     except subprocess.TimeoutExpired:
         res.update(status='undecided', note='bounded harness timed out', wall_s=round(time.time() - t0, 2))
         return res
@@ -127,7 +135,39 @@ def run_bounded(bid, tier='quick', repo='/repo', extra_args=None):
         res.update(status='undecided', note='bounded harness produced no result (rc=%s): %s' % (q.returncode, q.stderr[-800:]), wall_s=round(time.time() - t0, 2))
         return res
     res.update(out)
-    res['status'] = 'violation' if out.get('failure_count') else 'ok'
+    if reg.get('miri') and not extra_args:
+        # the same program interpreted by Miri on a fixed list of inputs: undefined behaviour (invalid free, use after
+        # free, wrong layout ..) aborts the interpreter with a report
+        menv = dict(os.environ, CARGO_NET_OFFLINE='true', CARGO_TARGET_DIR=os.path.join(BDIR, 'target-miri', 'repo' if not scratch_tree else '%s-%d' % (tag, os.getpid())),
+                    MIRIFLAGS='-Zmiri-disable-isolation')
+        try:
+            with open(os.path.join(tdir, '.vx-lock-miri'), 'w') as lk2:
+                fcntl.flock(lk2, fcntl.LOCK_EX)
+                prepare_work()
+                mq = subprocess.run(['cargo', '+nightly', 'miri', 'run', '--offline', '-q', '--', 'miri'], cwd=work, env=menv, capture_output=True, text=True, timeout=3000)
+        except subprocess.TimeoutExpired:
+            mq = None
+        if scratch_tree:
+            shutil.rmtree(menv['CARGO_TARGET_DIR'], ignore_errors=True)
+        if mq is None:
+            res['miri'] = dict(status='undecided', note='miri run timed out')
+        else:
+            txt = (mq.stdout or '') + '\n' + (mq.stderr or '')
+            ub = [l.strip() for l in txt.split('\n') if 'Undefined Behavior' in l or l.startswith('error: memory leaked') or 'MISMATCH' in l]
+            if ub:
+                sig = 'miri: ' + ub[0][:160]
+                res.setdefault('signatures', {})[sig] = len(ub)
+                res.setdefault('failures', []).append(dict(signature=sig, family='miri', index=-1, graphql='fixed list of call histories (see bounded/loaderseq/src/main.rs, mode miri)',
+                                                           definition='(history)', why=ub[0][:400], got=txt[-1800:]))
+                res['failure_count'] = res.get('failure_count', 0) + len(ub)
+                res['miri'] = dict(status='violation', report=ub[:5])
+            elif 'miri histories done' in txt and mq.returncode == 0:
+                res['miri'] = dict(status='ok', histories='5 fixed histories x 2 buffer shapes, interpreted without undefined behaviour')
+            else:
+                res['miri'] = dict(status='undecided', note=txt[-800:])
+    res['status'] = 'violation' if res.get('failure_count') else ('undecided' if (res.get('miri') or {}).get('status') == 'undecided' else 'ok')
+    if res['status'] == 'undecided':
+        res['note'] = 'miri step undecided: ' + str((res.get('miri') or {}).get('note'))[:600]
     res['wall_s'] = round(time.time() - t0, 2)
     if scratch_tree:
         shutil.rmtree(work, ignore_errors=True)
